@@ -1,0 +1,48 @@
+//go:build verif
+
+package internal
+
+// Contracts for utils.go, counter.go (property C16: counter striping).
+
+func sp_pow2_32(x uint32) bool { return x != 0 && x&(x-1) == 0 }
+
+func spec_RoundUpPowerOf2(v uint32) (r uint32) {
+	ensures("pow2", imp(v <= 1<<31, sp_pow2_32(r)))
+	ensures("ge", imp(v <= 1<<31, r >= v))
+	ensures("tight", imp(v >= 2 && v <= 1<<31, r>>1 < v))
+	ensures("zero", imp(v == 0, r == 1))
+	return
+}
+
+// A-PAR: the number of usable CPUs is between 1 and 65536 (trusted, runtime-provided)
+func ext_xruntime_Parallelism() (r uint32) {
+	ensures("range", r >= 1 && r <= 1<<16)
+	return
+}
+
+// ghost: total of all deltas added to a counter
+func gh_count(c *UnsignedCounter) uint64 { panic("ghost") }
+
+func sp_wfCounter(c *UnsignedCounter) bool {
+	return len(c.stripes) >= 1 && len(c.stripes) <= 1<<31 && sp_pow2(uint(len(c.stripes))) &&
+		uint64(c.mask) == uint64(len(c.stripes))-1
+}
+
+func spec_NewUnsignedCounter() (c *UnsignedCounter) {
+	ensures("wf", c != nil && sp_wfCounter(c) && fresh(c))
+	return
+}
+
+// Add: every stripe access is in range for every token value; the delta is added exactly once
+// (the CAS loop exits only after a successful compare-and-swap of one stripe)
+func (c *UnsignedCounter) spec_Add(delta uint64) {
+	requires("wf", sp_wfCounter(c))
+	set(gh_count(c), gh_count(c)+delta)
+	ensures("counted", gh_count(c) == old(gh_count(c))+delta)
+	ensures("wf", sp_wfCounter(c))
+}
+
+func (c *UnsignedCounter) spec_Value() (v uint64) {
+	requires("wf", sp_wfCounter(c))
+	return
+}
